@@ -139,7 +139,7 @@ Section Inst.
       let p1 := mk (Some (x mod p, (p - y0) mod p)) in
       if Z.land y0 1 =? 0 then Some (p0, p1) else Some (p1, p0).
 
-  (* the field-canonical abscissae: the exclusion predicate of C01_recover_sound_partial *)
+  (* the reduced field elements *)
   Definition x_canonical (x : Z) : Prop := 0 <= x < p.
 
   Section WithHmac.
@@ -160,7 +160,7 @@ Section Inst.
       sign_with_recid pt psmul pG n pcoords (fun _ _ _ => Ret k) fuel d val.
 
     Definition i_recover (val r s : Z) (y_parity : option Z) : outcome (list raw) :=
-      match recover pt padd psmul pG n plift_x val r s y_parity with
+      match recover pt padd psmul pG n p plift_x val r s y_parity with
       | Ret l => Ret (map praw l)
       | Raise e => Raise e
       | OutOfFuel => OutOfFuel
